@@ -372,4 +372,165 @@ theorem delLoop_dests (l : List Dest) (st : Store)
       have := hr d (by simp [hd])
       simpa [Store.destReferenced] using this
 
+/-! ### remove_server deletes exactly the owned instances -/
+
+theorem nodup_map_of_inj_on {α β} (f : α → β) {l : List α} (hnd : l.Nodup)
+    (hinj : ∀ a ∈ l, ∀ b ∈ l, f a = f b → a = b) : (l.map f).Nodup := by
+  induction l with
+  | nil => simp
+  | cons x xs ih =>
+    simp only [List.nodup_cons] at hnd
+    simp only [List.map_cons, List.nodup_cons, List.mem_map, not_exists, not_and]
+    refine ⟨fun y hy e => ?_, ih hnd.2 (fun a ha b hb => hinj a (by simp [ha]) b (by simp [hb]))⟩
+    have := hinj y (by simp [hy]) x (by simp) e
+    exact hnd.1 (this ▸ hy)
+
+/-- the store after manager `id` has been removed: everything it owns (by the spec) is gone, the rest
+    is untouched, in the same order -/
+def purge (id : Str) (st : Store) : Store :=
+  { dests := st.dests.filter (fun d => !decide (ownsSpec .dest id d.path.name)),
+    filts := st.filts.filter (fun f => !decide (ownsSpec .filt id f.path.name)),
+    subs := st.subs.filter (fun s => !decide (s.owner = some id)) }
+
+theorem rmSubs_exact {id : Str} {st : Store} {o : Owned} (hi : StoreInv st) (ha : Agree id st o) :
+    rmSubs st o = ({ st with subs := st.subs.filter (fun s => !decide (s.owner = some id)) },
+                   { o with os := none }, none) := by
+  obtain ⟨ls, hls, hnd, hmem⟩ := ha.os
+  have hsub : ∀ s ∈ ls, s ∈ st.subs := fun s hs => ((hmem s).mp hs).1
+  have hkn : (ls.reverse.map Sub.key).Nodup := by
+    apply nodup_map_of_inj_on _ (hnd.perm (List.reverse_perm _).symm)
+    intro a ha b hb e
+    exact eq_of_key Sub.key hi.snd (hsub a (by simpa using ha)) (hsub b (by simpa using hb)) e
+  have hp : ∀ s ∈ ls.reverse, st.hasSub s.filter s.handler = true := by
+    intro s hs
+    exact hasSub_iff.mpr ⟨s, hsub s (by simpa using hs), rfl, rfl⟩
+  have hloop := delLoop_subs ls.reverse st hp hkn
+  have hf : st.subs.filter (fun s => !decide (Sub.key s ∈ ls.reverse.map Sub.key)) =
+      st.subs.filter (fun s => !decide (s.owner = some id)) := by
+    apply List.filter_congr
+    intro s hs
+    congr 1
+    apply decide_eq_decide.mpr
+    constructor
+    · intro h
+      simp only [List.mem_map, List.mem_reverse] at h
+      obtain ⟨y, hy, e⟩ := h
+      have := eq_of_key Sub.key hi.snd (hsub y hy) hs e
+      subst this
+      exact ((hmem y).mp hy).2
+    · intro h
+      simp only [List.mem_map, List.mem_reverse]
+      exact ⟨s, (hmem s).mpr ⟨hs, h⟩, rfl⟩
+  simp only [rmSubs, hls, delBackwards, hloop, hf, List.reverse_nil]
+
+theorem rmFilts_exact {id : Str} {st : Store} {o : Owned} (hi : StoreInv st)
+    (hof : ∃ l, o.of = some l ∧ l.Nodup ∧ ∀ f, f ∈ l ↔ (f ∈ st.filts ∧ ownsSpec .filt id f.path.name))
+    (hnoref : ∀ s ∈ st.subs, ¬ ownsSpec .filt id s.filter.name) :
+    rmFilts st o = ({ st with filts := st.filts.filter (fun f => !decide (ownsSpec .filt id f.path.name)) },
+                    { o with of := none }, none) := by
+  obtain ⟨lf, hlf, hnd, hmem⟩ := hof
+  have hsub : ∀ f ∈ lf, f ∈ st.filts := fun f hf => ((hmem f).mp hf).1
+  have hkn : (lf.reverse.map (·.path)).Nodup := by
+    apply nodup_map_of_inj_on _ (hnd.perm (List.reverse_perm _).symm)
+    intro a ha b hb e
+    exact eq_of_key (·.path) hi.fnd (hsub a (by simpa using ha)) (hsub b (by simpa using hb)) e
+  have hp : ∀ f ∈ lf.reverse, st.hasFilt f.path = true := by
+    intro f hf
+    exact hasFilt_iff.mpr ⟨f, hsub f (by simpa using hf), rfl⟩
+  have hr : ∀ f ∈ lf.reverse, st.filtReferenced f.path = false := by
+    intro f hf
+    have hown := ((hmem f).mp (by simpa using hf)).2
+    cases h : st.filtReferenced f.path with
+    | false => rfl
+    | true =>
+      obtain ⟨s, hs, e⟩ := filtReferenced_iff.mp h
+      exact absurd (e ▸ hown) (hnoref s hs)
+  have hloop := delLoop_filts lf.reverse st hp hr hkn
+  have hf : st.filts.filter (fun f => !decide (f.path ∈ lf.reverse.map (·.path))) =
+      st.filts.filter (fun f => !decide (ownsSpec .filt id f.path.name)) := by
+    apply List.filter_congr
+    intro f hf
+    congr 1
+    apply decide_eq_decide.mpr
+    constructor
+    · intro h
+      simp only [List.mem_map, List.mem_reverse] at h
+      obtain ⟨y, hy, e⟩ := h
+      have := eq_of_key (·.path) hi.fnd (hsub y hy) hf e
+      subst this
+      exact ((hmem y).mp hy).2
+    · intro h
+      simp only [List.mem_map, List.mem_reverse]
+      exact ⟨f, (hmem f).mpr ⟨hf, h⟩, rfl⟩
+  simp only [rmFilts, hlf, delBackwards, hloop, hf, List.reverse_nil]
+
+theorem rmDests_exact {id : Str} {st : Store} {o : Owned} (hi : StoreInv st)
+    (hod : ∃ l, o.od = some l ∧ l.Nodup ∧ ∀ d, d ∈ l ↔ (d ∈ st.dests ∧ ownsSpec .dest id d.path.name))
+    (hnoref : ∀ s ∈ st.subs, ¬ ownsSpec .dest id s.handler.name) :
+    rmDests st o = ({ st with dests := st.dests.filter (fun d => !decide (ownsSpec .dest id d.path.name)) },
+                    { o with od := none }, none) := by
+  obtain ⟨ld, hld, hnd, hmem⟩ := hod
+  have hsub : ∀ d ∈ ld, d ∈ st.dests := fun d hd => ((hmem d).mp hd).1
+  have hkn : (ld.reverse.map (·.path)).Nodup := by
+    apply nodup_map_of_inj_on _ (hnd.perm (List.reverse_perm _).symm)
+    intro a ha b hb e
+    exact eq_of_key (·.path) hi.dnd (hsub a (by simpa using ha)) (hsub b (by simpa using hb)) e
+  have hp : ∀ d ∈ ld.reverse, st.hasDest d.path = true := by
+    intro d hd
+    exact hasDest_iff.mpr ⟨d, hsub d (by simpa using hd), rfl⟩
+  have hr : ∀ d ∈ ld.reverse, st.destReferenced d.path = false := by
+    intro d hd
+    have hown := ((hmem d).mp (by simpa using hd)).2
+    cases h : st.destReferenced d.path with
+    | false => rfl
+    | true =>
+      obtain ⟨s, hs, e⟩ := destReferenced_iff.mp h
+      exact absurd (e ▸ hown) (hnoref s hs)
+  have hloop := delLoop_dests ld.reverse st hp hr hkn
+  have hf : st.dests.filter (fun d => !decide (d.path ∈ ld.reverse.map (·.path))) =
+      st.dests.filter (fun d => !decide (ownsSpec .dest id d.path.name)) := by
+    apply List.filter_congr
+    intro d hd
+    congr 1
+    apply decide_eq_decide.mpr
+    constructor
+    · intro h
+      simp only [List.mem_map, List.mem_reverse] at h
+      obtain ⟨y, hy, e⟩ := h
+      have := eq_of_key (·.path) hi.dnd (hsub y hy) hd e
+      subst this
+      exact ((hmem y).mp hy).2
+    · intro h
+      simp only [List.mem_map, List.mem_reverse]
+      exact ⟨d, (hmem d).mpr ⟨hd, h⟩, rfl⟩
+  simp only [rmDests, hld, delBackwards, hloop, hf, List.reverse_nil]
+
+theorem removeServer_exact {id : Str} {st : Store} {o : Owned} (hi : StoreInv st) (ha : Agree id st o)
+    (hc : ':' ∉ id) :
+    stepRemoveServer true st o = (⟨purge id st, ⟨none, none, none⟩, .done⟩, false) := by
+  have h1 := rmSubs_exact hi ha
+  -- after phase 1 no remaining subscription touches an instance owned by `id`
+  have hrem : ∀ s ∈ st.subs.filter (fun s => !decide (s.owner = some id)),
+      ¬ ownsSpec .filt id s.filter.name ∧ ¬ ownsSpec .dest id s.handler.name := by
+    intro s hs
+    simp only [List.mem_filter, Bool.not_eq_true', decide_eq_false_iff_not] at hs
+    have hg := ((hi.ghost s hs.1).2 id hc)
+    exact ⟨fun h => hs.2 (hg.mpr (Or.inl h)), fun h => hs.2 (hg.mpr (Or.inr h))⟩
+  have hi1 := hi.filterSubs (fun s => !decide (s.owner = some id))
+  have h2 := rmFilts_exact (id := id) (o := { o with os := none }) hi1 ha.of (fun s hs => (hrem s hs).1)
+  have hi2 : StoreInv { dests := st.dests, filts := st.filts.filter (fun f => !decide (ownsSpec .filt id f.path.name)),
+                        subs := st.subs.filter (fun s => !decide (s.owner = some id)) } := by
+    refine ⟨List.Nodup.sublist (List.Sublist.map _ List.filter_sublist) hi.fnd, hi.dnd, hi1.snd, ?_, hi1.ghost⟩
+    intro s hs
+    obtain ⟨r1, r2⟩ := hi1.refs s hs
+    refine ⟨?_, r2⟩
+    obtain ⟨f, hf, e⟩ := hasFilt_iff.mp r1
+    refine hasFilt_iff.mpr ⟨f, ?_, e⟩
+    simp only [List.mem_filter, Bool.not_eq_true', decide_eq_false_iff_not]
+    exact ⟨hf, fun h => (hrem s hs).1 (e ▸ h)⟩
+  have h3 := rmDests_exact (id := id) (o := { o with os := none, of := none }) hi2 ha.od
+    (fun s hs => (hrem s hs).2)
+  simp only [stepRemoveServer, h1, h2, h3, purge]
+  cases o; rfl
+
 end Proofs.SubMgr
